@@ -193,11 +193,27 @@ Theorem C12_model_satisfies_judge : forall P : prims,
   law_base32_roundtrip P /\ law_bech32_roundtrip P ->
   forall c, case_wf c ->
   has_panic (model_obs P c) = false /\ stmt P c (model_obs P c) = true /\
-  judge P c (model_obs P c) = if stmt_tested c (model_obs P c) then Holds else FailsUnknown.
+  judge P c (model_obs P c) =
+    (if stmt_tested c (model_obs P c) then Holds
+     else if known_class P c =? 0 then FailsUnknown else FailsKnown (known_class P c)).
 Proof.
   intros P L c H. destruct (model_satisfies_stmt P L c H) as [A B]. exact (conj A (conj B (judge_on_model P L c H))).
 Qed.
 Print Assumptions C12_model_satisfies_judge.
+(* sequences of calls in one process: the model of a sequence is the list of the models of the steps taken alone, so any
+   dependence of an implementation result on earlier calls is a disagreement; the judge accepts the model's sequence exactly
+   when every step passes its tested part *)
+Theorem C12_sequences_stepwise : forall P : prims,
+  law_shapes P /\ law_sign_normal P /\ law_sign_extended P /\ law_xpub_layout P /\ law_soft_derivation P /\
+  law_hard_refused P /\ law_normalize3 P /\ law_pbkdf2_bip39_shape P /\
+  law_aead_roundtrip P /\ law_aead_shapes P /\ law_aead_authentic P /\ law_aead_plain_by_ct P /\
+  law_base32_roundtrip P /\ law_bech32_roundtrip P ->
+  forall l, Forall case_wf l ->
+  model_seq P l = map (model_obs P) l /\
+  (forallb (fun c => stmt_tested c (model_obs P c)) l = true -> judge_seq P l (model_seq P l) = Holds).
+Proof. intros P L l H. exact (conj eq_refl (judge_seq_on_model P L l H)). Qed.
+Print Assumptions C12_sequences_stepwise.
+
 Example C12_case_wf_nontrivial : case_wf (CSign 1 (repeat 7 64) [1; 2] [3] (repeat 8 64)) /\ case_wf (CX128 toy_root).
 Proof.
   split; [split|exact (proj2 (proj1 toy_root_ok))]; apply Forall_forall; intros x Hx; apply repeat_spec in Hx; subst; reflexivity.
